@@ -430,6 +430,13 @@ func c07EngineSelection(c *core.Ctx) {
 		if s.MatchCase && s.Pattern == "/x\\.com/" {
 			s.MatchCase = false
 		}
+		if (c07Specific(s) || len(s.CTags)+len(s.Clients)+len(s.DNSTypes)+len(s.DenyAllow) > 0) && c.Rng.Intn(4) == 0 {
+			// Patterns that match any address are legal next to a restriction.
+			s.Pattern = []string{"*", "|", "", "/.*/", "||"}[c.Rng.Intn(5)]
+			if s.Pattern == "/.*/" {
+				s.MatchCase = false
+			}
+		}
 		lines = append(lines, s.Render(c.Rng))
 	}
 	req := rules.NewRequest("https://x.com/", "https://d.com/", rules.TypeScript)
@@ -473,6 +480,24 @@ func c07EngineSelection(c *core.Ctx) {
 	}
 	w1, _ := ne.Match(req)
 	check("NetworkEngine.Match", w1)
+	// The order is a function of the rule texts: rule objects that have been
+	// through matching compare like freshly parsed ones.
+	fresh := make([]*rules.NetworkRule, len(all))
+	for i, r := range all {
+		fresh[i], _ = rules.NewNetworkRule(r.RuleText, r.FilterListID)
+	}
+	for i, a := range all {
+		for j, b := range all {
+			if fresh[i] == nil || fresh[j] == nil {
+				continue
+			}
+			c.Eval(1)
+			if used, fr := a.IsHigherPriority(b), fresh[i].IsHigherPriority(fresh[j]); used != fr {
+				c.Violation("priority-changes-with-use", nil, c07Witness{A: a.RuleText, B: b.RuleText},
+					"%q > %q is %v for the rule objects the engine returned and %v for freshly parsed ones", a.RuleText, b.RuleText, used, fr)
+			}
+		}
+	}
 	check("Engine.MatchRequest", eng.MatchRequest(req).BasicRule)
 	// The DNS entry point has a selection function of its own.
 	de := urlfilter.NewDNSEngine(util.Storage(contents...))
